@@ -747,3 +747,570 @@ Proof. intros Dd Hp W F BO. cbn zeta. pose proof (import_issue_clean c us p iss 
     + destruct H as [s' [-> [A [B C]]]]. cbn [fst snd]. rewrite A, B.
       split; [exact C|]. split; [exact G1|]. split; [auto|]. split; [exact BO|]. split; [discriminate|].
       intros _. split; [reflexivity|]. split; [reflexivity|]. right. now split. Qed.
+
+(* second time: nothing changes *)
+Lemma issue_again c us p iss s : (1 <= p)%nat -> rs_fault s = None -> issue_done c us iss (rs_idents s) (rs_bugs s) ->
+  let r := import_issue c us p iss s in
+  snd r = true /\ rs_idents (fst r) = rs_idents s /\ rs_bugs (fst r) = rs_bugs s /\ rs_fault (fst r) = None.
+Proof. intros Hp F [Au [b [FB [I [S En]]]]]. cbn zeta.
+  pose proof (import_issue_clean c us p iss s Hp F) as H. cbn zeta in H.
+  assert (P : person_ok c us (rs_idents s) (i_author iss) = true) by (unfold person_ok; apply memN_In in Au; now rewrite Au).
+  assert (Ids : idents_after c us (rs_idents s) (i_author iss) = rs_idents s) by (apply ensured_noop; now left).
+  rewrite P, FB, Ids in H. destruct H as [s2 [A [B [C ->]]]].
+  pose proof (finish_again c us iss s2 b C) as X. cbn zeta in X. rewrite A, B in X. now apply X. Qed.
+
+Lemma issue_done_frame c us iss idents bugs idents' bugs' :
+  issue_done c us iss idents bugs -> grown c us idents idents' -> find_bug (i_iid iss) bugs' = find_bug (i_iid iss) bugs ->
+  issue_done c us iss idents' bugs'.
+Proof. intros [Au [b [FB [I [S En]]]]] G E. split; [now apply G|]. exists b. rewrite E. split; [exact FB|]. split; [exact I|]. split.
+  - intros e He P. apply S; [exact He|]. now rewrite <- (grown_ok c us idents idents' _ G).
+  - intros e He NE NM. eapply ensured_mono; [apply G|]. now apply En. Qed.
+
+(* an issue that stopped the run stops it again, and nothing changes *)
+Lemma issue_abort_again c us p iss s s1 : (1 <= p)%nat -> rs_fault s = None -> import_issue c us p iss s = (s1, false) ->
+  forall s', rs_fault s' = None -> rs_idents s' = rs_idents s1 -> rs_bugs s' = rs_bugs s1 ->
+  let r := import_issue c us p iss s' in
+  snd r = false /\ rs_idents (fst r) = rs_idents s' /\ rs_bugs (fst r) = rs_bugs s'.
+Proof. intros Hp F E s' F' Ids Bs. cbn zeta.
+  pose proof (import_issue_clean c us p iss s Hp F) as H. cbn zeta in H.
+  pose proof (import_issue_clean c us p iss s' Hp F') as H'. cbn zeta in H'.
+  assert (FinTrue : forall ops0 s2, snd (finish c us iss ops0 s2) = true).
+  { intros. unfold finish. destruct (fold_left _ _ _) as [o1 s6]. now destruct (Nat.eqb _ _). }
+  destruct (person_ok c us (rs_idents s) (i_author iss)) eqn:P.
+  - destruct (find_bug (i_iid iss) (rs_bugs s)) as [b|] eqn:FB.
+    + destruct H as [s2 [_ [_ [_ X]]]]. rewrite E in X. pose proof (FinTrue (b_ops b) s2) as Y. rewrite <- X in Y. discriminate.
+    + destruct (op_valid c (create_op iss)) eqn:V.
+      * destruct H as [s2 [_ [_ [_ X]]]]. rewrite E in X. pose proof (FinTrue [create_op iss] s2) as Y. rewrite <- X in Y. discriminate.
+      * destruct H as [s0 [X [A [B _]]]]. rewrite E in X. inversion X; subst s0.
+        assert (In (i_author iss) (rs_idents s')) by (rewrite Ids, A; now apply idents_after_ok).
+        assert (P' : person_ok c us (rs_idents s') (i_author iss) = true) by (unfold person_ok; apply memN_In in H; now rewrite H).
+        rewrite P', Bs, B, FB in H'. destruct H' as [s'' [-> [A' [B' _]]]]. cbn.
+        split; [reflexivity|]. split; [|congruence]. rewrite A'. apply ensured_noop. now left.
+  - destruct H as [s0 [X [A [B _]]]]. rewrite E in X. inversion X; subst s0.
+    rewrite Ids, A, P in H'. destruct H' as [s'' [-> [A' [B' _]]]]. cbn. split; [reflexivity|]. split; congruence. Qed.
+
+(* ------------------------------------------------------------------ the listed issues, no failure pending *)
+
+Lemma import_issues_app c us p a b s :
+  import_issues c us p (a ++ b) s = let '(s1, go) := import_issues c us p a s in if go then import_issues c us p b s1 else (s1, false).
+Proof. revert s. induction a as [|i a IH]; intros s; cbn; [now destruct (import_issues c us p b s)|].
+  destruct (import_issue c us p i s) as [s1 go]. destruct go; [apply IH|reflexivity]. Qed.
+
+Lemma issues_first c us p : c_dedupe_labels c = true -> (1 <= p)%nat -> forall l s,
+  Forall wf_issue l -> NoDup (map i_iid l) -> rs_fault s = None -> (forall i, In i l -> bug_ok c i (rs_bugs s)) ->
+  let r := import_issues c us p l s in
+  rs_fault (fst r) = None /\ grown c us (rs_idents s) (rs_idents (fst r)) /\
+  (forall iid', ~ In iid' (map i_iid l) -> find_bug iid' (rs_bugs (fst r)) = find_bug iid' (rs_bugs s)) /\
+  (snd r = true -> forall i, In i l -> issue_done c us i (rs_idents (fst r)) (rs_bugs (fst r))) /\
+  (snd r = false -> exists pre k post sk, l = pre ++ k :: post /\
+      (forall i, In i pre -> issue_done c us i (rs_idents (fst r)) (rs_bugs (fst r))) /\
+      rs_fault sk = None /\ import_issue c us p k sk = (fst r, false)).
+Proof. intros Dd Hp. induction l as [|i t IH]; intros s W ND F BO; cbn zeta.
+  - cbn. split; [exact F|]. split; [apply grown_refl|]. split; [auto|]. split; [intros _ i []|discriminate].
+  - cbn [import_issues]. inversion W as [|? ? Wi Wt]; subst. cbn in ND. inversion ND as [|? ? Ni NDt]; subst.
+    pose proof (issue_first c us p i s Dd Hp Wi F (BO i (or_introl eq_refl))) as X. cbn zeta in X.
+    destruct (import_issue c us p i s) as [s1 go] eqn:E1. cbn [fst snd] in X.
+    destruct X as [X1 [X2 [X3 [X4 [X5 X6]]]]].
+    destruct go.
+    + assert (BO1 : forall j, In j t -> bug_ok c j (rs_bugs s1)).
+      { intros j Hj b Hb. apply (BO j (or_intror Hj)). rewrite <- Hb. symmetry. apply X3. intros Eq. apply Ni. rewrite <- Eq. now apply in_map. }
+      specialize (IH s1 Wt NDt X1 BO1). cbn zeta in IH.
+      destruct (import_issues c us p t s1) as [s2 go2]. cbn [fst snd] in *.
+      destruct IH as [Y1 [Y2 [Y3 [Y4 Y5]]]].
+      assert (Di : issue_done c us i (rs_idents s2) (rs_bugs s2)).
+      { eapply issue_done_frame; [apply X5; reflexivity|exact Y2|]. now apply Y3. }
+      split; [exact Y1|]. split; [eapply grown_trans; eauto|]. split; [|split].
+      * intros iid' Nin. cbn in Nin. rewrite Y3 by tauto. apply X3. intros Eq. apply Nin. now left.
+      * intros G j [<-|Hj]; [exact Di|now apply Y4].
+      * intros G. destruct (Y5 G) as [pre [k [post [sk [-> [Z1 [Z2 Z3]]]]]]].
+        exists (i :: pre), k, post, sk. split; [reflexivity|]. split; [|auto]. intros j [<-|Hj]; [exact Di|now apply Z1].
+    + cbn [fst snd]. split; [exact X1|]. split; [exact X2|]. split; [|split; [discriminate|]].
+      * intros iid' Nin. apply X3. intros Eq. apply Nin. cbn. now left.
+      * intros _. exists [], i, t, s. split; [reflexivity|]. split; [intros j []|]. split; [exact F|exact E1]. Qed.
+
+Lemma issues_again c us p : (1 <= p)%nat -> forall l s, rs_fault s = None ->
+  (forall i, In i l -> issue_done c us i (rs_idents s) (rs_bugs s)) ->
+  let r := import_issues c us p l s in
+  snd r = true /\ rs_idents (fst r) = rs_idents s /\ rs_bugs (fst r) = rs_bugs s /\ rs_fault (fst r) = None.
+Proof. intros Hp. induction l as [|i t IH]; intros s F D; cbn zeta; [cbn; auto|].
+  cbn [import_issues]. pose proof (issue_again c us p i s Hp F (D i (or_introl eq_refl))) as X. cbn zeta in X.
+  destruct (import_issue c us p i s) as [s1 go]. cbn [fst snd] in X. destruct X as [-> [X2 [X3 X4]]].
+  specialize (IH s1 X4). cbn zeta in IH. rewrite X2, X3 in IH.
+  destruct IH as [Y1 [Y2 [Y3 Y4]]]; [intros j Hj; apply D; now right|]. auto. Qed.
+
+(* ------------------------------------------------------------------ the result stream only grows; a request that failed is reported *)
+
+Definition errs (s : rs) : bool := has_error (rs_res s).
+Definition pending (s : rs) : bool := match rs_fault s with Some _ => true | None => false end.
+Definition ext (s s' : rs) : Prop := exists d, rs_res s' = rs_res s ++ d.
+(* the pending failure was used up between s and s' *)
+Definition consumed (s s' : rs) : Prop := pending s = true /\ pending s' = false.
+(* a failure does not appear out of nothing *)
+Definition calm (s s' : rs) : Prop := pending s = false -> pending s' = false.
+
+Lemma ext_refl s : ext s s. Proof. exists []. now rewrite app_nil_r. Qed.
+Lemma ext_trans a b d : ext a b -> ext b d -> ext a d.
+Proof. intros [x X] [y Y]. exists (x ++ y). now rewrite Y, X, app_assoc. Qed.
+Lemma has_error_app a b : has_error (a ++ b) = has_error a || has_error b.
+Proof. unfold has_error. apply existsb_app. Qed.
+Lemma ext_errs s s' : ext s s' -> errs s = true -> errs s' = true.
+Proof. intros [d E] H. unfold errs in *. now rewrite E, has_error_app, H. Qed.
+Lemma emit_ext r s : ext s (emit r s). Proof. now exists [r]. Qed.
+Lemma emit_error_errs s : errs (emit RError s) = true.
+Proof. unfold errs. cbn. rewrite has_error_app. cbn. apply orb_true_r. Qed.
+Lemma calm_refl s : calm s s. Proof. intros H; exact H. Qed.
+Lemma calm_trans a b d : calm a b -> calm b d -> calm a d. Proof. unfold calm. auto. Qed.
+
+Lemma calm_emit r s : calm s (emit r s). Proof. unfold calm, pending. cbn. auto. Qed.
+Lemma calm_to_emit r a b : calm a b -> calm a (emit r b). Proof. unfold calm, pending. cbn. auto. Qed.
+
+Lemma consumed_split a b d : calm a b -> calm b d -> consumed a d -> consumed a b \/ consumed b d.
+Proof. intros C1 C2 [P Q]. destruct (pending b) eqn:B; [right; now split|left; now split]. Qed.
+
+Lemma send_facts q s : let r := send q s in
+  ext s (fst r) /\ calm s (fst r) /\ rs_res (fst r) = rs_res s /\ (snd r = false -> consumed s (fst r)) /\ (consumed s (fst r) -> snd r = false).
+Proof. cbn zeta. unfold send, ext, calm, consumed, pending. cbn.
+  destruct (rs_fault s) as [f|]; cbn.
+  - destruct (req_eqb f q); cbn; repeat split; try (exists []; now rewrite app_nil_r); auto; try discriminate. intros [_ H]. discriminate.
+  - repeat split; try (exists []; now rewrite app_nil_r); auto; try discriminate. intros [H _]. discriminate. Qed.
+
+Lemma ep_facts c us uid s : let r := ensure_person c us uid s in
+  ext s (fst r) /\ calm s (fst r) /\ errs (fst r) = errs s /\ (consumed s (fst r) -> snd r = false).
+Proof. cbn zeta. unfold ensure_person. destruct (memN uid (rs_idents s)).
+  - cbn. repeat split; [apply ext_refl|apply calm_refl|]. intros [P Q]. congruence.
+  - pose proof (send_facts (QUser uid) s) as H. cbn zeta in H. destruct (send (QUser uid) s) as [s1 ok]. cbn [fst snd] in *.
+    destruct H as [E [Ca [R [F1 F2]]]]. unfold errs. destruct ok; cbn [negb].
+    + assert (NC : consumed s s1 -> False) by (intros X; specialize (F2 X); discriminate).
+      destruct (find_user us uid) as [u|]; [destruct (u_gone u); [|destruct (ident_valid c u)]|]; cbn [fst snd];
+      try (split; [exact E|]; split; [exact Ca|]; split; [now rewrite R|]; intros X; exfalso; now apply NC).
+      split; [eapply ext_trans; [exact E|]; exists [RIdent uid]; reflexivity|]. split; [exact Ca|].
+      split; [cbn; rewrite has_error_app, R; cbn; now rewrite orb_false_r|]. intros X. exfalso. now apply NC.
+    + cbn. split; [exact E|]. split; [exact Ca|]. split; [now rewrite R|reflexivity]. Qed.
+
+Lemma ee_facts c us iss ops s e : let r := ensure_event c us iss (ops, s) e in
+  ext s (snd r) /\ calm s (snd r) /\ (consumed s (snd r) -> errs (snd r) = true) /\ (e = EError -> errs (snd r) = true).
+Proof. cbn zeta. unfold ensure_event.
+  assert (ErrCase : ext s (emit RError s) /\ calm s (emit RError s) /\ (consumed s (emit RError s) -> errs (emit RError s) = true) /\
+                    (e = EError -> errs (emit RError s) = true)).
+  { split; [apply emit_ext|]. split; [apply calm_emit|]. split; intros; apply emit_error_errs. }
+  assert (AD : forall s1, let x := match decide c iss ops e with
+                                   | ANone => s1
+                                   | AError => emit RError s1
+                                   | AAppend o r => if op_valid c o then match r with Some x => emit x s1 | None => s1 end else emit RError s1
+                                   end in ext s1 x /\ pending x = pending s1).
+  { intros s1. cbn zeta. destruct (decide c iss ops e) as [| |o r]; [split; [apply ext_refl|reflexivity]|split; [apply emit_ext|reflexivity]|].
+    destruct (op_valid c o); [destruct r|]; split; try apply emit_ext; try apply ext_refl; reflexivity. }
+  destruct e as [n|l|st|]; [| | |exact ErrCase];
+  (destruct (resolve _ ops); [ | |exact ErrCase];
+   (match goal with |- context [ensure_person c us ?u s] =>
+      pose proof (ep_facts c us u s) as H; cbn zeta in H; destruct (ensure_person c us u s) as [s1 ok] end;
+    cbn [fst snd] in *; destruct H as [E [Ca [Er Co]]];
+    destruct ok;
+    [ destruct (AD s1) as [A1 A2]; cbn zeta in A1, A2;
+      split; [eapply ext_trans; [exact E|exact A1]|]; split; [intros P; rewrite A2; now apply Ca|]; split; [|discriminate];
+      intros [X1 X2]; rewrite A2 in X2; assert (Q : snd (s1, true) = false) by (apply Co; now split); discriminate
+    | split; [eapply ext_trans; [exact E|apply emit_ext]|]; split; [now apply calm_to_emit|]; split; [intros; apply emit_error_errs|discriminate] ])). Qed.
+
+Lemma events_facts c us iss : forall evs ops s, let r := fold_left (ensure_event c us iss) evs (ops, s) in
+  ext s (snd r) /\ calm s (snd r) /\ (consumed s (snd r) -> errs (snd r) = true) /\ (In EError evs -> errs (snd r) = true).
+Proof. induction evs as [|e t IH]; intros ops s; cbn zeta.
+  - cbn. split; [apply ext_refl|]. split; [apply calm_refl|]. split; [intros [P Q]; congruence|tauto].
+  - cbn [fold_left]. pose proof (ee_facts c us iss ops s e) as H. cbn zeta in H.
+    destruct (ensure_event c us iss (ops, s) e) as [ops1 s1]. cbn [fst snd] in H. destruct H as [E1 [C1 [K1 X1]]].
+    specialize (IH ops1 s1). cbn zeta in IH. destruct IH as [E2 [C2 [K2 X2]]].
+    split; [eapply ext_trans; eauto|]. split; [eapply calm_trans; eauto|]. split.
+    + intros Co. destruct (consumed_split _ _ _ C1 C2 Co) as [A|A]; [eapply ext_errs; [exact E2|now apply K1]|now apply K2].
+    + intros [He|Hin]; [eapply ext_errs; [exact E2|now apply X1]|now apply X2]. Qed.
+
+Lemma fetch_pages_facts {A} (mk : nat -> req) p (l : list A) : forall fuel k s,
+  let r := fetch_pages fuel mk p l k s in
+  rs_res (fst (fst r)) = rs_res s /\ calm s (fst (fst r)) /\ (consumed s (fst (fst r)) -> snd r = true).
+Proof. induction fuel as [|f IH]; intros k s; cbn zeta; cbn [fetch_pages].
+  - cbn. split; [reflexivity|]. split; [apply calm_refl|]. intros [P Q]. congruence.
+  - pose proof (send_facts (mk k) s) as H. cbn zeta in H. destruct (send (mk k) s) as [s1 ok]. cbn [fst snd] in H.
+    destruct H as [_ [Ca [R [F1 F2]]]]. destruct ok; cbn [negb].
+    + assert (NC : consumed s s1 -> False) by (intros X; specialize (F2 X); discriminate).
+      destruct (Nat.leb (npages p l) k).
+      * cbn. split; [exact R|]. split; [exact Ca|]. intros X. exfalso. now apply NC.
+      * specialize (IH (S k) s1). cbn zeta in IH. destruct (fetch_pages f mk p l (S k) s1) as [[s2 rest] failed]. cbn [fst snd] in *.
+        destruct IH as [R2 [C2 K2]]. split; [congruence|]. split; [eapply calm_trans; eauto|].
+        intros Co. destruct (consumed_split _ _ _ Ca C2 Co) as [X|X]; [exfalso; now apply NC|now apply K2].
+    + cbn. split; [exact R|]. split; [exact Ca|]. reflexivity. Qed.
+
+Lemma fetch_all_facts {A} (mk : nat -> req) p (l : list A) s :
+  let r := fetch_all mk p l s in
+  rs_res (fst (fst r)) = rs_res s /\ calm s (fst (fst r)) /\ (consumed s (fst (fst r)) -> snd r = true).
+Proof. apply fetch_pages_facts. Qed.
+
+(* nothing is lost by the merge *)
+Lemma merge3_complete : forall fuel a b c e, (length a + length b + length c <= fuel)%nat ->
+  In e a \/ In e b \/ In e c -> In e (merge3 fuel a b c).
+Proof. induction fuel as [|f IH]; intros a b c e L H.
+  - destruct a, b, c; cbn in L; try lia. cbn in H. tauto.
+  - cbn [merge3]. destruct (earlier (head_time c) _) eqn:Pc.
+    + destruct c as [|x c']; [cbn in Pc; now destruct (if earlier (head_time b) (head_time a) then head_time b else head_time a)|].
+      cbn in L. destruct H as [H|[H|[<-|H]]]; [right; apply IH; [lia|tauto]|right; apply IH; [lia|tauto]|now left|right; apply IH; [lia|tauto]].
+    + destruct (earlier (head_time b) (head_time a)) eqn:Pb.
+      * destruct b as [|x b']; [cbn in Pb; discriminate|].
+        cbn in L. destruct H as [H|[[<-|H]|H]]; [right; apply IH; [lia|tauto]|now left|right; apply IH; [lia|tauto]|right; apply IH; [lia|tauto]].
+      * destruct a as [|x a'].
+        -- (* a is empty: then b and c are empty too *)
+           destruct b as [|y b']; [|cbn in Pb; discriminate]. destruct c as [|z c']; [|cbn in Pc; discriminate]. cbn in H. tauto.
+        -- cbn in L. destruct H as [[<-|H]|[H|H]]; [now left|right; apply IH; [lia|tauto]|right; apply IH; [lia|tauto]|right; apply IH; [lia|tauto]]. Qed.
+
+Lemma sorted_events_complete a b c e : In e a \/ In e b \/ In e c -> In e (sorted_events a b c).
+Proof. apply merge3_complete. lia. Qed.
+
+Lemma with_error_has evs : In EError (with_error evs true).
+Proof. unfold with_error. apply in_or_app. right. now left. Qed.
+
+Lemma pending_emit r s : pending (emit r s) = pending s. Proof. reflexivity. Qed.
+Lemma pending_set_bugs b s : pending (set_bugs b s) = pending s. Proof. reflexivity. Qed.
+Lemma ext_set_bugs b s : ext s (set_bugs b s). Proof. exists []. cbn. now rewrite app_nil_r. Qed.
+Lemma errs_set_bugs b s : errs (set_bugs b s) = errs s. Proof. reflexivity. Qed.
+
+Lemma issue_facts c us p iss s : let r := import_issue c us p iss s in
+  ext s (fst r) /\ calm s (fst r) /\ (consumed s (fst r) -> errs (fst r) = true) /\ (snd r = false -> errs (fst r) = true).
+Proof. cbn zeta. unfold import_issue.
+  pose proof (ep_facts c us (i_author iss) s) as H. cbn zeta in H. destruct (ensure_person c us (i_author iss) s) as [s1 ok]. cbn [fst snd] in H.
+  destruct H as [E1 [C1 [_ K1]]].
+  assert (Abort : ext s (emit RError s1) /\ calm s (emit RError s1) /\ (consumed s (emit RError s1) -> errs (emit RError s1) = true) /\
+                  (false = false -> errs (emit RError s1) = true)).
+  { split; [eapply ext_trans; [exact E1|apply emit_ext]|]. split; [now apply calm_to_emit|]. split; intros; apply emit_error_errs. }
+  destruct ok; cbn [negb]; [|exact Abort].
+  assert (NC1 : consumed s s1 -> False) by (intros X; specialize (K1 X); discriminate).
+  set (created := match find_bug (i_iid iss) (rs_bugs s1) with Some b => Some (b_ops b, s1) | None => _ end).
+  assert (Cr : match created with Some (ops0, s2) => ext s1 s2 /\ pending s2 = pending s1 | None => True end).
+  { subst created. destruct (find_bug (i_iid iss) (rs_bugs s1)); [split; [apply ext_refl|reflexivity]|].
+    destruct (op_valid c _); [|exact I]. split; [|reflexivity]. eapply ext_trans; [apply ext_set_bugs|apply emit_ext]. }
+  destruct created as [[ops0 s2]|]; [|exact Abort]. destruct Cr as [E2 P2].
+  pose proof (fetch_all_facts (QNotes (i_iid iss)) p (i_notes iss) s2) as F3. cbn zeta in F3.
+  destruct (fetch_all (QNotes (i_iid iss)) p (i_notes iss) s2) as [[s3 ns] fn]. cbn [fst snd] in F3. destruct F3 as [R3 [C3 K3]].
+  pose proof (fetch_all_facts (QLabels (i_iid iss)) p (i_labels iss) s3) as F4. cbn zeta in F4.
+  destruct (fetch_all (QLabels (i_iid iss)) p (i_labels iss) s3) as [[s4 ls] fl]. cbn [fst snd] in F4. destruct F4 as [R4 [C4 K4]].
+  pose proof (fetch_all_facts (QStates (i_iid iss)) p (i_states iss) s4) as F5. cbn zeta in F5.
+  destruct (fetch_all (QStates (i_iid iss)) p (i_states iss) s4) as [[s5 ss] fs]. cbn [fst snd] in F5. destruct F5 as [R5 [C5 K5]].
+  set (evs := sorted_events _ _ _).
+  pose proof (events_facts c us iss evs ops0 s5) as F6. cbn zeta in F6.
+  destruct (fold_left (ensure_event c us iss) evs (ops0, s5)) as [ops1 s6]. cbn [fst snd] in F6. destruct F6 as [E6 [C6 [K6 X6]]].
+  assert (E25 : ext s2 s5) by (exists []; rewrite app_nil_r; congruence).
+  assert (E06 : ext s s6) by (eapply ext_trans; [exact E1|]; eapply ext_trans; [exact E2|]; eapply ext_trans; [exact E25|exact E6]).
+  assert (C12 : calm s1 s2) by (intros X; congruence).
+  assert (C06 : calm s s6) by (repeat (eapply calm_trans; eauto)).
+  assert (Key : consumed s s6 -> errs s6 = true).
+  { intros Co. destruct (consumed_split s s1 s6 C1 ltac:(repeat (eapply calm_trans; eauto)) Co) as [X|X]; [exfalso; now apply NC1|].
+    destruct (consumed_split s1 s2 s6 C12 ltac:(repeat (eapply calm_trans; eauto)) X) as [[Y1 Y2]|Y]; [congruence|].
+    destruct (consumed_split s2 s3 s6 C3 ltac:(repeat (eapply calm_trans; eauto)) Y) as [Z|Z].
+    { apply X6. subst evs. apply sorted_events_complete. left. rewrite (K3 Z). apply with_error_has. }
+    destruct (consumed_split s3 s4 s6 C4 ltac:(repeat (eapply calm_trans; eauto)) Z) as [U|U].
+    { apply X6. subst evs. apply sorted_events_complete. right. left. rewrite (K4 U). apply with_error_has. }
+    destruct (consumed_split s4 s5 s6 C5 C6 U) as [V|V].
+    { apply X6. subst evs. apply sorted_events_complete. right. right. rewrite (K5 V). apply with_error_has. }
+    now apply K6. }
+  destruct (Nat.eqb (length ops1) (length ops0)); cbn [fst snd].
+  - split; [eapply ext_trans; [exact E06|apply emit_ext]|]. split; [now apply calm_to_emit|]. split; [|discriminate].
+    intros [X1 X2]. eapply ext_errs; [apply emit_ext|]. apply Key. split; [exact X1|exact X2].
+  - split; [eapply ext_trans; [exact E06|apply ext_set_bugs]|]. split; [exact C06|]. split; [|discriminate].
+    intros [X1 X2]. rewrite errs_set_bugs. apply Key. split; [exact X1|exact X2]. Qed.
+
+Lemma issues_facts c us p : forall l s, let r := import_issues c us p l s in
+  ext s (fst r) /\ calm s (fst r) /\ (consumed s (fst r) -> errs (fst r) = true) /\ (snd r = false -> errs (fst r) = true).
+Proof. induction l as [|i t IH]; intros s; cbn zeta.
+  - cbn. split; [apply ext_refl|]. split; [apply calm_refl|]. split; [intros [P Q]; congruence|discriminate].
+  - cbn [import_issues]. pose proof (issue_facts c us p i s) as H. cbn zeta in H.
+    destruct (import_issue c us p i s) as [s1 go]. cbn [fst snd] in H. destruct H as [E1 [C1 [K1 A1]]].
+    destruct go; [|cbn; auto].
+    specialize (IH s1). cbn zeta in IH. destruct (import_issues c us p t s1) as [s2 go2]. cbn [fst snd] in *.
+    destruct IH as [E2 [C2 [K2 A2]]]. split; [eapply ext_trans; eauto|]. split; [eapply calm_trans; eauto|]. split; [|exact A2].
+    intros Co. destruct (consumed_split _ _ _ C1 C2 Co) as [X|X]; [eapply ext_errs; [exact E2|now apply K1]|now apply K2]. Qed.
+
+(* a request that failed during ImportAll is always reported, provided the issue listing reports its own failure *)
+Lemma import_all_facts c t p since s : c_list_error c = true -> let r := import_all c t p since s in
+  ext s (fst r) /\ calm s (fst r) /\ (consumed s (fst r) -> errs (fst r) = true) /\ (snd r = false -> errs (fst r) = true).
+Proof. intros LE. cbn zeta. unfold import_all.
+  pose proof (fetch_all_facts QIssues p (listed t since) s) as F1. cbn zeta in F1.
+  destruct (fetch_all QIssues p (listed t since) s) as [[s1 l] failed]. cbn [fst snd] in F1. destruct F1 as [R1 [C1 K1]].
+  pose proof (issues_facts c (t_users t) p l s1) as F2. cbn zeta in F2.
+  destruct (import_issues c (t_users t) p l s1) as [s2 go]. cbn [fst snd] in F2. destruct F2 as [E2 [C2 [K2 A2]]].
+  assert (E01 : ext s s1) by (exists []; rewrite app_nil_r; congruence).
+  rewrite LE, andb_true_r. destruct go; cbn [andb].
+  - destruct failed; cbn [fst snd].
+    + split; [eapply ext_trans; [eapply ext_trans; [exact E01|exact E2]|apply emit_ext]|]. split; [apply calm_to_emit; eapply calm_trans; eauto|].
+      split; [intros; apply emit_error_errs|discriminate].
+    + split; [eapply ext_trans; eauto|]. split; [eapply calm_trans; eauto|]. split; [|discriminate].
+      intros Co. destruct (consumed_split _ _ _ C1 C2 Co) as [X|X]; [specialize (K1 X); discriminate|now apply K2].
+  - cbn [fst snd]. split; [eapply ext_trans; eauto|]. split; [eapply calm_trans; eauto|]. split; [intros _; now apply A2|exact A2]. Qed.
+
+(* ------------------------------------------------------------------ idempotence *)
+
+Definition wf_tracker (t : tracker) : Prop := Forall wf_issue (t_issues t) /\ NoDup (map i_iid (t_issues t)).
+Definition bugs_ok (c : cfg) (t : tracker) (bugs : list bug) : Prop := forall i, In i (t_issues t) -> bug_ok c i bugs.
+
+Lemma listed_in t since i : In i (listed t since) -> In i (t_issues t).
+Proof. unfold listed. destruct since; [|auto]. intros H. now apply filter_In in H. Qed.
+Lemma NoDup_map_filter {A B} (f : A -> B) (g : A -> bool) l : NoDup (map f l) -> NoDup (map f (filter g l)).
+Proof. induction l as [|x l IH]; cbn; [auto|]. intros H. inversion H; subst. destruct (g x); cbn; [|auto].
+  constructor; [|auto]. intros X. apply H2. apply in_map_iff in X as [y [E Hy]]. apply filter_In in Hy as [Hy _]. rewrite <- E. now apply in_map. Qed.
+Lemma listed_wf t since : wf_tracker t -> Forall wf_issue (listed t since) /\ NoDup (map i_iid (listed t since)).
+Proof. intros [W N]. split.
+  - apply Forall_forall. intros i Hi. rewrite Forall_forall in W. apply W. now apply (listed_in t since).
+  - unfold listed. destruct since; [now apply NoDup_map_filter|exact N]. Qed.
+
+Lemma import_all_clean c t p since s : (1 <= p)%nat -> rs_fault s = None ->
+  exists s1, same_core s s1 /\ import_all c t p since s = import_issues c (t_users t) p (listed t since) s1.
+Proof. intros Hp F. unfold import_all. destruct (fetch_all_clean QIssues p (listed t since) s Hp F) as [s1 [E C]]. rewrite E.
+  exists s1. split; [exact C|]. destruct (import_issues c (t_users t) p (listed t since) s1) as [s2 go]. now rewrite andb_false_r. Qed.
+
+(* a second import of the same listing, or of a part of a listing that was gone through to its end, changes nothing *)
+Lemma import_all_again c t p since s : c_dedupe_labels c = true -> (1 <= p)%nat -> wf_tracker t -> rs_fault s = None -> bugs_ok c t (rs_bugs s) ->
+  let r1 := import_all c t p since s in
+  forall since' s', rs_fault s' = None -> rs_idents s' = rs_idents (fst r1) -> rs_bugs s' = rs_bugs (fst r1) ->
+  since' = since \/ (snd r1 = true /\ forall i, In i (listed t since') -> In i (listed t since)) ->
+  let r2 := import_all c t p since' s' in
+  rs_idents (fst r2) = rs_idents s' /\ rs_bugs (fst r2) = rs_bugs s'.
+Proof. intros Dd Hp W F BO. cbn zeta. intros since' s' F' Ids Bs Hs.
+  destruct (import_all_clean c t p since s Hp F) as [s1 [[A1 [A2 [_ A4]]] E1]]. rewrite E1 in *.
+  destruct (import_all_clean c t p since' s' Hp F') as [s1' [[B1 [B2 [_ B4]]] E2]]. rewrite E2.
+  destruct (listed_wf t since W) as [Wl Nl].
+  assert (F1 : rs_fault s1 = None) by congruence. assert (F1' : rs_fault s1' = None) by congruence.
+  assert (BO1 : forall i, In i (listed t since) -> bug_ok c i (rs_bugs s1)).
+  { intros i Hi. rewrite A2. apply BO. now apply (listed_in t since). }
+  pose proof (issues_first c (t_users t) p Dd Hp (listed t since) s1 Wl Nl F1 BO1) as X. cbn zeta in X.
+  destruct (import_issues c (t_users t) p (listed t since) s1) as [s2 go] eqn:R1. cbn [fst snd] in *.
+  destruct X as [X1 [X2 [X3 [X4 X5]]]].
+  rewrite <- B1 in Ids. rewrite <- B2 in Bs. rewrite <- B1, <- B2.
+  destruct go.
+  - (* the first run went through its whole listing *)
+    assert (D : forall i, In i (listed t since') -> issue_done c (t_users t) i (rs_idents s1') (rs_bugs s1')).
+    { intros i Hi. rewrite Ids, Bs. apply X4; [reflexivity|]. destruct Hs as [->|[_ Hs]]; auto. }
+    pose proof (issues_again c (t_users t) p Hp (listed t since') s1' F1' D) as Y. cbn zeta in Y. tauto.
+  - (* it stopped at an issue: the second run, over the same listing, stops there again *)
+    destruct Hs as [->|[Hs _]]; [|discriminate].
+    destruct (X5 eq_refl) as [pre [k [post [sk [El [Dp [Fk Ek]]]]]]].
+    rewrite El, import_issues_app.
+    assert (D : forall i, In i pre -> issue_done c (t_users t) i (rs_idents s1') (rs_bugs s1')) by (intros i Hi; rewrite Ids, Bs; now apply Dp).
+    pose proof (issues_again c (t_users t) p Hp pre s1' F1' D) as Y. cbn zeta in Y.
+    destruct (import_issues c (t_users t) p pre s1') as [sp gp]. cbn [fst snd] in Y. destruct Y as [-> [Y2 [Y3 Y4]]].
+    cbn [import_issues].
+    pose proof (issue_abort_again c (t_users t) p k sk s2 Hp Fk Ek sp Y4 ltac:(congruence) ltac:(congruence)) as Z. cbn zeta in Z.
+    destruct (import_issue c (t_users t) p k sp) as [sq gq]. cbn [fst snd] in Z. destruct Z as [-> [Z2 Z3]]. cbn. split; congruence. Qed.
+
+Lemma listed_mono t x y i : x <= y -> In i (listed t (Some y)) -> In i (listed t (Some x)).
+Proof. unfold listed. intros L H. apply filter_In in H as [H1 H2]. apply filter_In. split; [exact H1|]. apply N.leb_le in H2. apply N.leb_le. lia. Qed.
+
+(* C16_idempotent: an import round, then another one of the same kind on the same tracker state: nothing is added *)
+Lemma idempotent_round c t p full now now' idents bugs cursor :
+  c_dedupe_labels c = true -> (1 <= p)%nat -> wf_tracker t -> bugs_ok c t bugs ->
+  match cursor with Some x => x <= now - 5 | None => True end ->
+  let o1 := run_round c t p full now None idents bugs cursor in
+  let o2 := run_round c t p full now' None (out_idents o1) (out_bugs o1) (out_cursor o1) in
+  out_idents o2 = out_idents o1 /\ out_bugs o2 = out_bugs o1.
+Proof. intros Dd Hp W BO Hc. cbn zeta. unfold run_round.
+  set (s0 := mkrs idents bugs [] [] None).
+  pose proof (import_all_again c t p (if full then None else cursor) s0 Dd Hp W eq_refl BO) as H. cbn zeta in H.
+  destruct (import_all c t p (if full then None else cursor) s0) as [s1 done1] eqn:R1. cbn [fst snd] in *.
+  cbn [out_idents out_bugs out_cursor].
+  set (since2 := if full then None else if negb (has_error (rs_res s1)) then Some (now - 5) else cursor).
+  specialize (H since2 (mkrs (rs_idents s1) (rs_bugs s1) [] [] None) eq_refl eq_refl eq_refl).
+  destruct (import_all c t p since2 (mkrs (rs_idents s1) (rs_bugs s1) [] [] None)) as [s2 done2]. cbn [fst snd] in *.
+  cbn. apply H. subst since2. destruct full; [now left|].
+  destruct (has_error (rs_res s1)) eqn:He; cbn [negb]; [now left|]. right.
+  (* no error was reported: the run went through its whole listing (stopping reports an error) *)
+  assert (done1 = true).
+  { destruct done1; [reflexivity|]. exfalso.
+    destruct (import_all_clean c t p cursor s0 Hp eq_refl) as [sx [_ Ex]]. rewrite Ex in R1.
+    pose proof (issues_facts c (t_users t) p (listed t cursor) sx) as Y. cbn zeta in Y. rewrite R1 in Y. cbn [fst snd] in Y.
+    destruct Y as [_ [_ [_ Y]]]. specialize (Y eq_refl). unfold errs in Y. congruence. }
+  split; [assumption|]. intros i Hi. destruct cursor as [x|]; [now apply (listed_mono t x (now - 5))|now apply (listed_in t (Some (now - 5)))]. Qed.
+
+(* ------------------------------------------------------------------ which events get imported *)
+
+(* the event is turned into an operation carrying its id (if its author is there and the id is not there yet) *)
+Definition importable (c : cfg) (e : event) : bool :=
+  match ev_kind e with
+  | KComment | KClosed | KReopened => true
+  | KTitle => match new_title (note_body e) with Some t => title_valid c t | None => false end
+  | KAddLabel | KRemoveLabel => label_valid c (label_name e)
+  | _ => false
+  end.
+
+Lemma resolve_in g ops : resolve g ops <> LNone <-> In g (gids ops).
+Proof. rewrite resolve_none. destruct (in_dec N.eq_dec g (gids ops)); tauto. Qed.
+
+Lemma step_gids_mono c iss ok ops e g : In g (gids ops) -> In g (gids (step c iss ok ops e)).
+Proof. intros H. destruct (step_cases c iss ok ops e) as [->|[o [r [-> _]]]]; [exact H|]. rewrite gids_app. apply in_or_app. now left. Qed.
+
+(* a new id is the id of the event, whose author is there, and which is importable or a description change *)
+Lemma step_gids_new c iss ok ops e g : c_dedupe_labels c = true -> inv_ops c iss ops ->
+  In g (gids (step c iss ok ops e)) -> In g (gids ops) \/
+  (g = ev_id e /\ ok = true /\ e <> EError /\ (importable c e = true \/ ev_kind e = KDesc)).
+Proof. intros Dd I H. destruct (step_cases c iss ok ops e) as [E|[o [r [E [D [V [Ok [NM NE]]]]]]]]; [rewrite E in H; now left|].
+  rewrite E, gids_app in H. apply in_app_or in H as [H|H]; [now left|]. right.
+  destruct (decide_append c iss ops e o r Dd D) as [[G [_ [NoOne Hk]]]|[p [cur [G _]]]]; [|cbn in H; rewrite G in H; destruct H].
+  cbn in H. rewrite G in H. destruct H as [<-|[]]. repeat split; auto.
+  unfold importable. destruct (ev_kind e) eqn:K; auto.
+  - (* title: the operation validated, so the new title is valid *)
+    left. unfold decide in D. rewrite K in D. destruct (resolve (ev_id e) ops); try discriminate;
+    (destruct (new_title (note_body e)) as [t|]; [|discriminate]); inversion D; subst o; cbn in V; now apply andb_true_iff in V as [V _].
+  - left. unfold decide in D. rewrite K, Dd in D. destruct (resolve (ev_id e) ops); cbn in D; try discriminate; inversion D; subst o; exact V.
+  - left. unfold decide in D. rewrite K, Dd in D. destruct (resolve (ev_id e) ops); cbn in D; try discriminate; inversion D; subst o; exact V.
+  - unfold decide in D. rewrite K in D. discriminate.
+  - unfold decide in D. rewrite K in D. discriminate. Qed.
+
+(* a settled importable event is there *)
+Lemma settled_importable c iss ops e : inv_ops c iss ops -> settled c iss ops e -> e <> EError -> importable c e = true ->
+  In (ev_id e) (gids ops).
+Proof. intros [_ [Va _]] S NE Im. apply resolve_in. intros R.
+  assert (NM : resolve (ev_id e) ops <> LMany) by congruence.
+  assert (SI := fun o r => settled_inv c iss ops e o r S NE NM).
+  unfold importable in Im. destruct (ev_kind e) eqn:K; try discriminate.
+  - assert (F : op_valid c (mkop (Some (ev_id e)) (ev_user e) (ev_time e) (OComment (cleanup (note_body e)))) = false)
+      by (apply (SI _ (Some (RComment (i_iid iss)))); unfold decide; now rewrite K, R).
+    now rewrite op_valid_comment in F.
+  - destruct (new_title (note_body e)) as [t|] eqn:NT; [|discriminate].
+    assert (F : op_valid c (mkop (Some (ev_id e)) (ev_user e) (ev_time e) (OTitle t (cur_title ops []))) = false)
+      by (apply (SI _ (Some (RTitle (i_iid iss)))); unfold decide; now rewrite K, R, NT).
+    cbn in F. rewrite Im in F. cbn in F. rewrite (cur_title_safe c ops [] Va eq_refl) in F. discriminate.
+  - assert (F : op_valid c (mkop (Some (ev_id e)) (ev_user e) (ev_time e) (OStatus true)) = false)
+      by (apply (SI _ (Some (RStatus (i_iid iss)))); unfold decide; now rewrite K, R). discriminate.
+  - assert (F : op_valid c (mkop (Some (ev_id e)) (ev_user e) (ev_time e) (OStatus false)) = false)
+      by (apply (SI _ (Some (RStatus (i_iid iss)))); unfold decide; now rewrite K, R). discriminate.
+  - assert (F : op_valid c (mkop (Some (ev_id e)) (ev_user e) (ev_time e) (OLabel true (label_name e))) = false)
+      by (apply (SI _ None); unfold decide; rewrite K, R; now destruct (c_dedupe_labels c)).
+    cbn in F. congruence.
+  - assert (F : op_valid c (mkop (Some (ev_id e)) (ev_user e) (ev_time e) (OLabel false (label_name e))) = false)
+      by (apply (SI _ None); unfold decide; rewrite K, R; now destruct (c_dedupe_labels c)).
+    cbn in F. congruence. Qed.
+
+(* one event, a failure possibly pending *)
+Lemma ee_any c us iss ops s e : let r := ensure_event c us iss (ops, s) e in
+  exists ok, fst r = step c iss ok ops e /\ (ok = true -> person_ok c us (rs_idents s) (ev_user e) = true) /\
+             rs_bugs (snd r) = rs_bugs s /\ grown c us (rs_idents s) (rs_idents (snd r)).
+Proof. cbn zeta. unfold ensure_event.
+  assert (AD : forall s1, let x := match decide c iss ops e with
+                                   | ANone => s1
+                                   | AError => emit RError s1
+                                   | AAppend o r => if op_valid c o then match r with Some x => emit x s1 | None => s1 end else emit RError s1
+                                   end in rs_bugs x = rs_bugs s1 /\ rs_idents x = rs_idents s1).
+  { intros s1. cbn zeta. destruct (decide c iss ops e) as [| |o r]; [now split|now split|].
+    destruct (op_valid c o); [destruct r|]; now split. }
+  destruct e as [n|l|st|]; [| | |exists false; cbn; repeat split; auto; try discriminate; apply grown_refl];
+  (destruct (resolve _ ops) eqn:R;
+   [ | |exists false; rewrite step_false; cbn; repeat split; auto; try discriminate; apply grown_refl];
+   (match goal with |- context [ensure_person c us ?u s] =>
+      pose proof (ep_any c us u s) as H; cbn zeta in H; destruct (ensure_person c us u s) as [s1 ok] end;
+    cbn [fst snd] in *; destruct H as [B [T [Fa _]]]; exists ok; split; [reflexivity|]; split; [intros X; now apply T|];
+    assert (G : grown c us (rs_idents s) (rs_idents s1))
+      by (destruct ok; [destruct (T eq_refl) as [_ ->]; apply grown_after, grown_refl|rewrite (Fa eq_refl); apply grown_refl]);
+    destruct ok; [destruct (AD s1) as [A1 A2]; cbn zeta in A1, A2; rewrite A1, A2; now split|cbn; now split])). Qed.
+
+(* all the events, a failure possibly pending: what is added is justified by an event whose author is there *)
+Definition justified (c : cfg) (us : list user) (base : list N) (evs : list event) (g : N) : Prop :=
+  exists e, In e evs /\ e <> EError /\ ev_id e = g /\ person_ok c us base (ev_user e) = true /\ (importable c e = true \/ ev_kind e = KDesc).
+
+Lemma events_sound c us iss base : c_dedupe_labels c = true -> forall evs ops s,
+  inv_ops c iss ops -> grown c us base (rs_idents s) ->
+  let r := fold_left (ensure_event c us iss) evs (ops, s) in
+  inv_ops c iss (fst r) /\ rs_bugs (snd r) = rs_bugs s /\ grown c us base (rs_idents (snd r)) /\ (exists d, fst r = ops ++ d) /\
+  (forall g, In g (gids (fst r)) -> In g (gids ops) \/ justified c us base evs g).
+Proof. intros Dd. induction evs as [|e t IH]; intros ops s I G; cbn zeta.
+  - cbn. split; [exact I|]. split; [reflexivity|]. split; [exact G|]. split; [exists []; now rewrite app_nil_r|auto].
+  - cbn [fold_left]. pose proof (ee_any c us iss ops s e) as H. cbn zeta in H.
+    destruct (ensure_event c us iss (ops, s) e) as [ops1 s1]. cbn [fst snd] in H. destruct H as [ok [E1 [P1 [B1 G1]]]].
+    assert (I1 : inv_ops c iss ops1) by (subst ops1; now apply inv_ops_step).
+    assert (G1' : grown c us base (rs_idents s1)) by (eapply grown_trans; eauto).
+    specialize (IH ops1 s1 I1 G1'). cbn zeta in IH. destruct IH as [J1 [J2 [J3 [[d J4] J5]]]].
+    split; [exact J1|]. split; [congruence|]. split; [exact J3|]. split.
+    + subst ops1. destruct (step_cases c iss ok ops e) as [X|[o1 [r1 [X _]]]].
+      * rewrite X in J4 |- *. exists d. exact J4.
+      * rewrite X in J4 |- *. exists ([o1] ++ d). now rewrite J4, app_assoc.
+    + intros g Hg. destruct (J5 g Hg) as [Y|[e' [Y1 Y2]]].
+      * subst ops1. destruct (step_gids_new c iss ok ops e g Dd I Y) as [Z|[Z1 [Z2 [Z3 Z4]]]]; [now left|]. right.
+        exists e. split; [now left|]. split; [exact Z3|]. split; [now symmetry|]. split; [|exact Z4].
+        rewrite <- (grown_ok c us base (rs_idents s) _ G). now apply P1.
+      * right. exists e'. split; [now right|exact Y2]. Qed.
+
+Definition ops_of (iid : N) (bugs : list bug) : list op := match find_bug iid bugs with Some b => b_ops b | None => [] end.
+
+Definition justified_ev (c : cfg) (us : list user) (base : list N) (iss : issue) (g : N) : Prop :=
+  exists e, In_ev iss e /\ e <> EError /\ ev_id e = g /\ person_ok c us base (ev_user e) = true /\ (importable c e = true \/ ev_kind e = KDesc).
+
+Lemma fetch_pages_core {A} (mk : nat -> req) p (l : list A) : forall fuel k s,
+  rs_idents (fst (fst (fetch_pages fuel mk p l k s))) = rs_idents s /\ rs_bugs (fst (fst (fetch_pages fuel mk p l k s))) = rs_bugs s.
+Proof. induction fuel as [|f IH]; intros k s; cbn [fetch_pages]; [now cbn|].
+  pose proof (send_proj (mk k) s) as [A1 [A2 _]]. destruct (send (mk k) s) as [s1 ok]. cbn [fst snd] in *.
+  destruct ok; cbn [negb]; [|now cbn]. destruct (Nat.leb (npages p l) k); [now cbn|].
+  specialize (IH (S k) s1). destruct (fetch_pages f mk p l (S k) s1) as [[s2 rest] failed]. cbn [fst snd] in *. destruct IH. split; congruence. Qed.
+
+(* one issue, a failure possibly pending: what is added to its bug is justified; nothing else is touched *)
+Lemma issue_sound c us p iss s base : c_dedupe_labels c = true -> bug_ok c iss (rs_bugs s) -> grown c us base (rs_idents s) ->
+  let r := import_issue c us p iss s in
+  grown c us base (rs_idents (fst r)) /\ bug_ok c iss (rs_bugs (fst r)) /\
+  (forall iid', iid' <> i_iid iss -> find_bug iid' (rs_bugs (fst r)) = find_bug iid' (rs_bugs s)) /\
+  (exists d, ops_of (i_iid iss) (rs_bugs (fst r)) = ops_of (i_iid iss) (rs_bugs s) ++ d) /\
+  (forall g, In g (gids (ops_of (i_iid iss) (rs_bugs (fst r)))) ->
+             In g (gids (ops_of (i_iid iss) (rs_bugs s))) \/ g = i_iid iss \/ justified_ev c us base iss g).
+Proof. intros Dd BO G. cbn zeta. unfold import_issue.
+  pose proof (ep_any c us (i_author iss) s) as H. cbn zeta in H. destruct (ensure_person c us (i_author iss) s) as [s1 ok]. cbn [fst snd] in H.
+  destruct H as [B1 [T1 [Fa1 _]]].
+  assert (G1 : grown c us base (rs_idents s1)).
+  { destruct ok; [destruct (T1 eq_refl) as [_ ->]; now apply grown_after|now rewrite (Fa1 eq_refl)]. }
+  assert (Abort : grown c us base (rs_idents (emit RError s1)) /\ bug_ok c iss (rs_bugs (emit RError s1)) /\
+            (forall iid', iid' <> i_iid iss -> find_bug iid' (rs_bugs (emit RError s1)) = find_bug iid' (rs_bugs s)) /\
+            (exists d, ops_of (i_iid iss) (rs_bugs (emit RError s1)) = ops_of (i_iid iss) (rs_bugs s) ++ d) /\
+            (forall g, In g (gids (ops_of (i_iid iss) (rs_bugs (emit RError s1)))) ->
+                       In g (gids (ops_of (i_iid iss) (rs_bugs s))) \/ g = i_iid iss \/ justified_ev c us base iss g)).
+  { cbn [emit rs_idents rs_bugs]. rewrite B1. split; [exact G1|]. split; [exact BO|]. split; [auto|]. split; [exists []; now rewrite app_nil_r|auto]. }
+  destruct ok; cbn [negb]; [|exact Abort]. fold (create_op iss).
+  (* the bug: found, or created *)
+  assert (Cr : match (match find_bug (i_iid iss) (rs_bugs s1) with
+                      | Some b => Some (b_ops b, s1)
+                      | None => if op_valid c (create_op iss)
+                                then Some ([create_op iss], emit (RBug (i_iid iss)) (set_bugs (put_bug (mkbug (i_iid iss) [create_op iss]) (rs_bugs s1)) s1))
+                                else None
+                      end) with
+               | Some (ops0, s2) => inv_ops c iss ops0 /\ rs_idents s2 = rs_idents s1 /\ ops_of (i_iid iss) (rs_bugs s2) = ops0 /\
+                                    (forall iid', iid' <> i_iid iss -> find_bug iid' (rs_bugs s2) = find_bug iid' (rs_bugs s)) /\
+                                    (exists d, ops0 = ops_of (i_iid iss) (rs_bugs s) ++ d) /\
+                                    (forall g, In g (gids ops0) -> In g (gids (ops_of (i_iid iss) (rs_bugs s))) \/ g = i_iid iss)
+               | None => True end).
+  { rewrite B1. destruct (find_bug (i_iid iss) (rs_bugs s)) as [b|] eqn:FB.
+    - split; [now apply BO|]. split; [reflexivity|]. unfold ops_of. rewrite B1, FB. split; [reflexivity|]. split; [auto|].
+      split; [exists []; now rewrite app_nil_r|auto].
+    - destruct (op_valid c (create_op iss)) eqn:V; [|exact I]. cbn [emit set_bugs rs_idents rs_bugs].
+      split; [now apply inv_ops_create|]. split; [reflexivity|]. unfold ops_of.
+      rewrite (find_put_same (mkbug (i_iid iss) [create_op iss])), FB. cbn [b_ops]. split; [reflexivity|].
+      split; [intros iid' Ne; now apply find_put_other|]. split; [now exists [create_op iss]|].
+      intros g [<-|[]]. now right. }
+  destruct (match find_bug (i_iid iss) (rs_bugs s1) with Some b => Some (b_ops b, s1) | None => _ end) as [[ops0 s2]|]; [|exact Abort].
+  destruct Cr as [I0 [Id2 [O2 [Fr2 [Pre2 Gi2]]]]].
+  pose proof (fetch_pages_core (QNotes (i_iid iss)) p (i_notes iss) (npages p (i_notes iss)) 1 s2) as [A3 B3].
+  pose proof (fetch_pages_incl (QNotes (i_iid iss)) p (i_notes iss) (npages p (i_notes iss)) 1 s2) as In3.
+  change (fetch_pages (npages p (i_notes iss)) (QNotes (i_iid iss)) p (i_notes iss) 1 s2) with (fetch_all (QNotes (i_iid iss)) p (i_notes iss) s2) in *.
+  destruct (fetch_all (QNotes (i_iid iss)) p (i_notes iss) s2) as [[s3 ns] fn]. cbn [fst snd] in *.
+  pose proof (fetch_pages_core (QLabels (i_iid iss)) p (i_labels iss) (npages p (i_labels iss)) 1 s3) as [A4 B4].
+  pose proof (fetch_pages_incl (QLabels (i_iid iss)) p (i_labels iss) (npages p (i_labels iss)) 1 s3) as In4.
+  change (fetch_pages (npages p (i_labels iss)) (QLabels (i_iid iss)) p (i_labels iss) 1 s3) with (fetch_all (QLabels (i_iid iss)) p (i_labels iss) s3) in *.
+  destruct (fetch_all (QLabels (i_iid iss)) p (i_labels iss) s3) as [[s4 ls] fl]. cbn [fst snd] in *.
+  pose proof (fetch_pages_core (QStates (i_iid iss)) p (i_states iss) (npages p (i_states iss)) 1 s4) as [A5 B5].
+  pose proof (fetch_pages_incl (QStates (i_iid iss)) p (i_states iss) (npages p (i_states iss)) 1 s4) as In5.
+  change (fetch_pages (npages p (i_states iss)) (QStates (i_iid iss)) p (i_states iss) 1 s4) with (fetch_all (QStates (i_iid iss)) p (i_states iss) s4) in *.
+  destruct (fetch_all (QStates (i_iid iss)) p (i_states iss) s4) as [[s5 ss] fs]. cbn [fst snd] in *.
+  set (evs := sorted_events _ _ _).
+  assert (Fev : Forall (In_ev iss) evs) by (subst evs; now apply sorted_events_in_ev).
+  assert (G5 : grown c us base (rs_idents s5)) by (rewrite A5, A4, A3, Id2; exact G1).
+  pose proof (events_sound c us iss base Dd evs ops0 s5 I0 G5) as X. cbn zeta in X.
+  destruct (fold_left (ensure_event c us iss) evs (ops0, s5)) as [ops1 s6]. cbn [fst snd] in X.
+  destruct X as [J1 [J2 [J3 [[d J4] J5]]]].
+  assert (B62 : rs_bugs s6 = rs_bugs s2) by congruence.
+  assert (Just : forall g, justified c us base evs g -> justified_ev c us base iss g).
+  { intros g [e [He Y]]. exists e. split; [|exact Y]. rewrite Forall_forall in Fev. now apply Fev. }
+  destruct Pre2 as [d0 Pre2].
+  destruct (Nat.eqb (length ops1) (length ops0)); cbn [fst snd emit set_bugs rs_idents rs_bugs].
+  - rewrite B62. split; [exact J3|]. split; [intros b Hb; unfold ops_of in O2; rewrite Hb in O2; now subst|].
+    split; [exact Fr2|]. rewrite O2. split; [eauto|]. intros g Hg. destruct (Gi2 g Hg); auto.
+  - split; [exact J3|]. split; [intros b Hb; rewrite (find_put_same (mkbug (i_iid iss) ops1)) in Hb; inversion Hb; now subst|].
+    split; [intros iid' Ne; rewrite find_put_other by (cbn; exact Ne); rewrite B62; now apply Fr2|].
+    unfold ops_of at 1 3. rewrite (find_put_same (mkbug (i_iid iss) ops1)). cbn [b_ops].
+    split; [exists (d0 ++ d); now rewrite J4, Pre2, app_assoc|].
+    intros g Hg. destruct (J5 g Hg) as [Y|Y]; [destruct (Gi2 g Y); auto|right; right; now apply Just]. Qed.
